@@ -24,6 +24,7 @@ structure St where
   ctr : Nat := 0                       -- the position counter
   evs : List Ev := []                  -- atomic accesses performed, in order
   drops : List (Nat × Nat) := []       -- spans `[lo, hi)` of elements destroyed in place, in order
+  clones : List Nat := []              -- positions whose element was cloned eagerly (`Option::cloned`), in order
   deriving Repr, Inhabited
 
 inductive Res (α : Type) where
@@ -104,6 +105,18 @@ structure BufSelf where
 
 structure BufferedIterSelf (A : Type) where
   buffered_iter : BufSelf
+  atomic_iter : A
+
+/-- `Cloned<'a, T, A>` / `Copied<'a, T, A>`: the wrapped reference-yielding iterator -/
+structure AdaptSelf (A : Type) where
+  iter : A
+
+/-- `ClonedBufferedChunk` / `CopiedBufferedChunk`: the wrapped chunk puller -/
+structure AdaptBufSelf where
+  chunk : BufSelf
+
+structure BufferedIterSelfA (A : Type) where
+  buffered_iter : AdaptBufSelf
   atomic_iter : A
 
 /-- an iterator over consecutive positions (slice, vec, array) or values (range) `[lo, hi)` -/
@@ -243,6 +256,25 @@ export MTakeOne (m_take_one)
 /-- `take_one(i)` of vec.rs / array.rs reads the element at `ptr.add(i)`: `i` must be below the length -/
 instance : MTakeOne VecSelf := ⟨fun v i => if i < v.vec.len then pure i else M.failWith .precondition⟩
 instance : MTakeOne ArrSelf := ⟨fun v i => if i < v.array.len then pure i else M.failWith .precondition⟩
+
+/-! ## `cloned()` / `copied()` of std
+
+On an `Option<&T>` the clone happens at once (logged by position); on an iterator (`slice::Iter`, a chunk) the adaptor
+is lazy: the elements are the same positions, cloned when the consumer pulls them. -/
+
+class MCloned (C : Type) where
+  m_cloned : C → M C
+export MCloned (m_cloned)
+instance : MCloned (Option Nat) := ⟨fun o => match o with
+  | none => pure none
+  | some p => fun st => .ok (some p) { st with clones := st.clones ++ [p] }⟩
+instance : MCloned Span := ⟨fun s => pure s⟩
+
+class MCopied (C : Type) where
+  m_copied : C → M C
+export MCopied (m_copied)
+instance : MCopied (Option Nat) := ⟨fun o => pure o⟩
+instance : MCopied Span := ⟨fun s => pure s⟩
 
 /-! ## atomics (the one position counter of the iterator) -/
 
